@@ -6,7 +6,7 @@
 namespace scen_pool {
 
 enum { K_COAWAIT, K_COAWAIT_AWT_READY, K_COAWAIT_AWT_PENDING, K_RUN_FN, K_RUN_DETACHED, K_RUN_ASYNC, K_RESUME_SP, K_COUNT };
-struct Job { uint8_t kind, yields, where; };     // where: 0 submitted by the owner thread, 1 by a second submitter thread
+struct Job { uint8_t kind, yields, where; uint8_t again = 0; };   // again (co_await pool only): once on a worker the coroutine re-submits itself with co_await thread_pool::current()     // where: 0 submitted by the owner thread, 1 by a second submitter thread
 struct Prog { uint8_t workers; std::vector<Job> jobs; uint8_t stop_who; uint8_t stop_pos; uint8_t stop_yields; };
 // stop_who: 0 destructor only, 1 owner calls stop() before job #stop_pos, 2 a pool job calls stop(), 3 owner stop() at the end then destructor
 
@@ -22,13 +22,15 @@ inline Prog decode(hz::Reader &r, bool allow_self_stop) {
     p.stop_yields = (uint8_t)r.mod(3);
     uint8_t wmask = r.u8();
     for (unsigned i = 0; i < n; i++) p.jobs[i].where = (wmask >> i) & 1;
+    uint8_t amask = r.u8();
+    for (unsigned i = 0; i < n; i++) p.jobs[i].again = (uint8_t)(p.jobs[i].kind == K_COAWAIT && ((amask >> i) & 1));
     return p;
 }
 inline std::string describe(const Prog &p) {
     static const char *kn[] = {"co_await pool", "co_await pool(ready awaitable)", "co_await pool(pending awaitable)", "run(fn)", "run_detached(fn)", "run(async)", "resume(suspend_point)"};
     static const char *sw[] = {"destructor only", "owner stop() before job #", "a pool job calls stop() after job #", "owner stop() after all jobs, then destructor"};
     hz::Desc d; d << "pool(" << (unsigned)p.workers << " workers); jobs:";
-    for (auto &j : p.jobs) d << " [" << (j.where ? "2nd thread, " : "") << "yield*" << (unsigned)j.yields << ", " << kn[j.kind] << "]";
+    for (auto &j : p.jobs) d << " [" << (j.where ? "2nd thread, " : "") << "yield*" << (unsigned)j.yields << ", " << kn[j.kind] << (j.again ? ", then co_await thread_pool::current()" : "") << "]";
     d << "; stop: " << sw[p.stop_who];
     if (p.stop_who == 1 || p.stop_who == 2) d << (unsigned)p.stop_pos;
     return d.s;
@@ -37,6 +39,7 @@ inline std::string describe(const Prog &p) {
 struct JRec {
     int kind = 0;
     int ran = 0, cancelled = 0;
+    int ran2 = 0, cancelled2 = 0; bool on_worker2 = false;     // second stage: after co_await thread_pool::current()
     bool on_worker = false;
     int t_submit_begin = 0, t_submit_end = 0, t_ran = 0;
     long guards_live = 0; int guard_called = 0;
@@ -71,7 +74,13 @@ struct Guard {
 
 inline cocls::async<void> job_coawait(Ctx &c, int i) {
     try { co_await *c.pp; c.mark_ran(i); }
-    catch (const cocls::await_canceled_exception &) { c.j[(size_t)i].cancelled++; c.touch_pool(); }
+    catch (const cocls::await_canceled_exception &) { c.j[(size_t)i].cancelled++; c.touch_pool(); co_return; }
+    if (!c.p->jobs[(size_t)i].again) co_return;
+    // now on a worker: go to the end of the current pool's queue (continues at once if that pool is already stopping)
+    hz::upoints(c.p->jobs[(size_t)i].yields);
+    JRec &r = c.j[(size_t)i];
+    try { co_await cocls::thread_pool::current(); r.ran2++; r.on_worker2 = is_current(*c.pp); }
+    catch (const cocls::await_canceled_exception &) { r.cancelled2++; c.touch_pool(); }
 }
 inline cocls::async<void> job_coawait_awt(Ctx &c, int i, cocls::future<int> *gate) {
     try { int v = co_await (*c.pp)(*gate); c.mark_ran(i); HZ_CHECK(v == 5, "co_await pool(awaitable) returned %d instead of the awaitable's value 5", v); c.touch_pool(); }
@@ -197,6 +206,10 @@ inline void run(hz::Reader &rd, bool allow_self_stop) {
                 if (!r.ran) r.cancelled = 1;       // observable only through the closure's destruction, checked below
             }
             HZ_CHECK(r.ran + r.cancelled == 1, "job %zu (kind %d): ran %d times and was cancelled %d times (exactly one of the two expected)", i, r.kind, r.ran, r.cancelled);
+            if (p.jobs[i].again && r.ran) {
+                HZ_CHECK(r.ran2 + r.cancelled2 == 1, "job %zu re-submitted itself with co_await thread_pool::current(): it continued %d times and was cancelled %d times (exactly one of the two expected)", i, r.ran2, r.cancelled2);
+                if (r.ran2) HZ_CHECK(r.on_worker2, "job %zu continued after co_await thread_pool::current() without exception, but not on one of the pool's worker threads", i);
+            }
             // kinds with a cancellation channel only ever run on a worker; a coroutine handed
             // over by resume()/pool(awaitable) has no such channel: it may run elsewhere only
             // because the pool was already being stopped
